@@ -72,3 +72,11 @@ def call_function(it, rel, name, *args, **kwargs):
     if not isinstance(f, A.FuncRef):
         raise AnalysisError('function %s vanished from %s' % (name, rel))
     return it.call_function(f, list(args), dict(kwargs), f.node)
+
+
+def model_module(it, rel, src):
+    """register a model module (source text or an already lowered tree) under the name rel; classes in it can be instantiated with
+    instance() and their methods are interpreted like repository code"""
+    tree = ast.parse(src) if isinstance(src, str) else src
+    it.mods[rel] = (tree, {})
+    return tree
